@@ -303,6 +303,12 @@ func c01Generate(r *rand.Rand, hot string) *c01Program {
 	c01FixEvalOrder(g.prog)
 	c01Features(g.prog)
 
+	for _, f := range g.prog.funcs {
+		if c01HasNestedClosure(f.body, 0) {
+			g.prog.feats[c01ClsCloNested] = true
+		}
+	}
+
 	return g.prog
 }
 
